@@ -15,6 +15,8 @@
 #ifndef ZSTD_VERIF_H
 #define ZSTD_VERIF_H
 
+#include <stddef.h>   /* size_t */
+
 enum {
     ZSTD_VP_cstream_endShortcut = 1,     /* ZSTD_compressStream_generic : direct ZSTD_compressEnd into caller's buffer */
     ZSTD_VP_dstream_singlePass,          /* ZSTD_decompressStream : single-pass shortcut */
@@ -48,15 +50,18 @@ enum {
 extern "C" {
 # endif
 void     ZSTD_verif_probe(int id);
+void     ZSTD_verif_probe_val(int id, size_t value);   /* probe carrying one measurement */
 int      ZSTD_verif_coin(int site);
 unsigned ZSTD_verif_indexJump(void);
 # if defined (__cplusplus)
 }
 # endif
 # define ZSTD_VERIF_PROBE(id)  ZSTD_verif_probe(id)
+# define ZSTD_VERIF_PROBE_VAL(id, v) ZSTD_verif_probe_val((id), (size_t)(v))
 # define ZSTD_VERIF_COIN(site) ZSTD_verif_coin(site)
 #else
 # define ZSTD_VERIF_PROBE(id)  ((void)0)
+# define ZSTD_VERIF_PROBE_VAL(id, v) ((void)0)
 # define ZSTD_VERIF_COIN(site) (0)
 #endif
 
